@@ -1392,6 +1392,10 @@ class Glyph(object):
         if not self.data:
             return
         numContours = struct.unpack(">h", self.data[:2])[0]
+        if numContours == 0:
+            # Some fonts have glyphs with a header and numberOfContours 0 (see
+            # expand()): there is no outline data whose end could be located.
+            return
         data = bytearray(self.data)
         i = 10
         if numContours >= 0:
